@@ -934,6 +934,47 @@ func genDeepReentry(prop string, seed uint64, tier string) *Scenario {
 	return &Scenario{Knobs: genKnobs(r), Sched: genSched(r, seed), Body: raw, MaxSimS: 1500}
 }
 
+// genFullCount: the capacity bound at the upper end of a key's Count c: LockIds that are each up to 255
+// levels deep fill the key to exactly c+1 outstanding holds, further LockIds ask with the same Count
+// (they must be refused), one level is released and taken again by a newcomer, then everything is
+// released. c is a mid-range value or, in one run of 25, 0xffff itself (65536 holds: a long run).
+func genFullCount(prop string, seed uint64, tier string) *Scenario {
+	r := ssched.Sub(seed, "gen")
+	c := []int{254, 255, 256, 509, 510, 1000, 4000}[r.Intn(7)]
+	if r.Intn(25) == 0 {
+		c = 0xffff
+	}
+	full, rest := (c+1)/255, (c+1)%255
+	nl := full
+	if rest > 0 {
+		nl++
+	}
+	body := &CoreBody{NKeys: 1, NLids: nl + 4, Profile: "full-count", Dbs: []int{0}, Serial: true}
+	var ops []OpSpec
+	lock := func(l int) { ops = append(ops, OpSpec{Cmd: 1, Key: 0, Lid: l, Count: uint16(c), Rcount: 0xff, Expried: 900}) }
+	for l := 0; l < nl; l++ {
+		d := 255
+		if l == full {
+			d = rest
+		}
+		for i := 0; i < d; i++ {
+			lock(l)
+		}
+	}
+	for l := nl; l < nl+3; l++ { // the key is full: c+1 holds outstanding
+		lock(l)
+	}
+	ops = append(ops, OpSpec{Cmd: 2, Key: 0, Lid: 0, Rcount: 1}) // one level less: room for exactly one newcomer
+	lock(nl)
+	lock(nl + 1)
+	for l := 0; l < nl+3; l++ {
+		ops = append(ops, OpSpec{Cmd: 2, Key: 0, Lid: l, Rcount: 0})
+	}
+	body.Clients = []ClientSpec{{Kind: "mem", StartMs: 50, Ops: ops}}
+	raw, _ := json.Marshal(body)
+	return &Scenario{Knobs: genKnobs(r), Sched: genSched(r, seed), Body: raw, MaxSimS: 3000}
+}
+
 // genHolderWaves: structured workload for the holder bookkeeping (C02, C17).
 func genHolderWaves(prop string, seed uint64, tier string) *Scenario {
 	r := ssched.Sub(seed, "gen")
